@@ -106,7 +106,7 @@ def atom_text(a, rng, tag=None, variants=True):
         forms = ["%s%d" % (sign, n)]
         if n == 1:
             forms.append(sign)
-        if n <= 3:
+        if n <= 5:
             forms.append(sign * n)
         s += rng.choice(forms) if variants else forms[0]
     if variants and rng.random() < 0.05:
@@ -322,7 +322,7 @@ def random_tree_mol(rng, n, elements=None, p_ring=0.15, p_double=0.2, p_triple=0
             if rng.random() < p_bracket:
                 a.hcount = rng.choice([0, 0, 1, 1, 2])
                 if rng.random() < 0.4:
-                    a.charge = rng.choice([1, -1, 1, -1, 2])
+                    a.charge = rng.choice([1, -1, 1, -1, 1, -1, 2, 2, -2, 3, -3, 4])
                 if rng.random() < 0.2:
                     a.isotope = rng.choice([2, 13, 14, 15, 18, 0, 125])
             c = capof(a)
